@@ -90,7 +90,7 @@ theorem runReplace_eq (old new : Nat) (l : List Nat) :
 appends in order, a list told of its event adds it to every transition and then tells every source state,
 `to` creates one transition per target in order and adds them to the source state, `from_` one per origin,
 `from_.any()` is `from_` of a fresh `AnyState`, a copied transition keeps the callables of its specs (shallow copy,
-same group), `Events.add` splits on blanks and skips what is there -/
+same group), `Events.add` splits on runs of whitespace (D46) and skips what is there -/
 theorem decl_shapes :
     Expected.decl.tlOr = [.orIsNewListThenAdd] ∧
     Expected.decl.tlAddTransitions = [.unwrapList, .ensureIterable, .appendEachInOrder, .retSelf] ∧
@@ -102,6 +102,6 @@ theorem decl_shapes :
     Expected.decl.copyWithArgs = [.popOrOwn "source", .popOrOwn "target", .popOrOwn "event", .popOrOwn "internal",
       .newTransition, .forSpecsShallowCopySameGroup, .ret] ∧
     Expected.decl.eventsAdd = [.returnSelfIfNone, .ensureIterable,
-      .forEachSplitOnSpace [.skipIfPresent, .appendEventOrNew], .retSelf] := by decide
+      .forEachSplitOnWhitespace [.skipIfPresent, .appendEventOrNew], .retSelf] := by decide
 
 end SMV.Src
